@@ -657,5 +657,5 @@ func run(c Case, o *lib.Obs) error {
 }
 
 func TestC10(t *testing.T) {
-	lib.Check(t, spec, lib.Scale(28, 600), gen, run)
+	lib.Check(t, spec, lib.Scale(20, 600), gen, run)
 }
